@@ -83,6 +83,10 @@ def run(chk: Check, proj: Project) -> None:
     s6(chk, proj, w)
     s7(chk, proj, w)
     from . import C06 as _C06
+    from . import C07 as _C07
+
+    chk.borrow("S9", "Component.id reports the render running IN THIS THREAD: the metadata stack behind it is thread-confined (as_view() shares one instance between request threads) - with a plain per-instance deque a second thread's render of the same instance pushes on top, and Component.id reports that render's id while the root elements carry this render's (shared with C07-S1-I)",
+               lambda sub: _C07.s1i_shared_instances(sub, proj, w), only=lambda o: "_metadata_stack" in o.construct or "thread-confined" in o.construct)
 
     chk.borrow("S8", "Component.id reports the render that is RUNNING: the metadata entry pushed for a render is popped also when the render's body raises (try / finally around the yield) - otherwise a failed inner render of the same instance (a tree component that renders itself for its children and skips a failing child) leaves its entry on top, and the surviving outer render reports the failed render's id while its root elements carry its own (shared with C06-S2a)",
                lambda sub: _C06.s2a_generators(sub, proj, w), only=lambda o: "_with_metadata" in o.construct)
